@@ -10,10 +10,12 @@ META = {
             "every node with a live parent: parent's counter for that side + pops on their way to the node + pushes that updated "
             "the node but not yet its parent = what the node itself offers; every page index is either a set bit of its leaf or "
             "held by exactly one process; size_ = free bits + in-flight corrections) gives: every page handed out is a valid page "
-            "of the pool and is held by nobody else (no double allocation), no assert() of the file can fire, a pop() fails only "
-            "on reading a root whose counters are both zero, which implies that at that instant every page of the pool is held, "
-            "being pushed, or already reserved by a committed pop; at quiescence size_ and the root counters equal the number of "
-            "free pages exactly and a process running alone obtains a free page from pop() whenever one exists (so every released "
+            "of the pool and is held by nobody else (no double allocation), no assert() of the file can fire; at every moment root "
+            "counters + pages in the hands of processes (held, being pushed, or reserved by a pop that committed at the root) = pool "
+            "size, and the step in which a pop() answers false is a read of a root whose counters are both zero, so at that instant "
+            "no page of the pool is free (telescoping sum of the counting equations over the levels of the tree, sums over positions "
+            "and over processes exchanged); at quiescence size_ and the root counters equal the number of free pages exactly, every "
+            "tree counter is exact and every unheld page is a set bit of its leaf (so every released "
             "page can be allocated again). The model is tied to the code by running the extracted model and the real PageStack.cc, "
             "compiled unmodified from the working tree against a scheduler-controlled std::atomic (harness/sched_atomic.h), on the "
             "same scripts and schedules (every context switch at an atomic operation) and diffing events, final size_, all tree "
